@@ -116,7 +116,7 @@ type segment struct {
 	runs   int // runs per case (sampled kinds)
 }
 
-const schedCapThorough = 4000
+const schedCapThorough = 1000
 
 func layout(tier string) []segment {
 	if tier == fw.Thorough {
@@ -133,10 +133,10 @@ func layout(tier string) []segment {
 	return []segment{
 		{kind: ckTwsAll, n: 48, lo: 0, hi: 3},
 		{kind: ckTwsFixed, n: 96, lo: 4, hi: 4},
-		{kind: ckTwsRandom, n: 48, runs: 150},
+		{kind: ckTwsRandom, n: 48, runs: 120},
 		{kind: ckGwsAll, n: 4, lo: 0, hi: 2},
 		{kind: ckGwsFixed, n: 12, lo: 3, hi: 3},
-		{kind: ckGwsRandom, n: 16, runs: 150},
+		{kind: ckGwsRandom, n: 16, runs: 120},
 		{kind: ckTimeout, n: 8},
 	}
 }
@@ -401,7 +401,11 @@ func runExhaustive(c *fw.Ctx, a *acc, p proto, alphabet []sym, seg segment, part
 					a.res.Count("words_with_schedule_cap_hit", 1)
 				}
 			} else {
-				scheds, pendingLate = fixedSchedules(p, w)
+				fam := fixedFamily
+				if c.Tier != fw.Thorough {
+					fam = quickFamily
+				}
+				scheds, pendingLate = fixedSchedules(p, w, fam)
 			}
 			key := fw.HashKey(p.String(), ws)
 			modes := cancelModes(w)
